@@ -428,9 +428,28 @@ var basePool = []sess{
 	{access: "at1", refresh: "rt2", refreshDL: 1500, validDL: 2500, lifetime: 800000, grace: 0, groups: nil, email: "a@x.io"},
 }
 
+// strings that exercise every branch of %q (strconv.Quote): quote and backslash, named control
+// escapes, \x escapes (control, DEL, invalid UTF-8, overlong and truncated encodings), printable and
+// non-printable runes of 2, 3 and 4 bytes, and look-alikes of the key syntax itself
+var oddStrings = []string{
+	`a"b`, `a\b`, "tab\there", "nl\n", "bel\a\b\f\r\v", "nul\x00x", "del\x7f", "esc\x1b",
+	"\xff", "x\xc3", "\xe0\x80\x80", "\xed\xa0\x80", "\xf4\x90\x80\x80", "\xc0\xaf",
+	"é", "世界", "😀", "a\u00a0b", "s\u00ady", "z\u200b", "\U000e0001", "\ufffd",
+	`":"`, `"]`, `" "`, "[]", `x":["y"]`, "", " ", ":", ",",
+}
+
+func oddOr(r *Rng, s string, p float64) string {
+	if r.Chance(p) {
+		return r.Pick(oddStrings)
+	}
+	return s
+}
+
 func genSession(r *Rng) *sess {
 	s := basePool[r.Intn(len(basePool))]
 	s.groups = append([]string(nil), s.groups...)
+	s.access = oddOr(r, s.access, 0.08)
+	s.refresh = oddOr(r, s.refresh, 0.08)
 	if r.Chance(0.25) { // a stale or newer copy of the same cookie
 		s.refreshDL += int64(100 * (1 + r.Intn(3)))
 		s.validDL += int64(100 * (1 + r.Intn(3)))
@@ -477,7 +496,15 @@ func genUpdate(r *Rng) upd {
 var groupLists = [][]string{{"g1"}, {"g1", "g2"}, {"g2", "g1"}, {"g3", "g1", "g2"}, {"g1", "g2", "g3"}, {}, {"g2"}, {"g1", "g1"}}
 
 func genGroupsQuestion(r *Rng, endpoint string) *question {
-	if r.Chance(0.12) { // pairs that violate the guard and collide
+	if r.Chance(0.15) { // e-mails and group names full of quoting trouble
+		n := r.Intn(3)
+		g := make([]string, n)
+		for i := range g {
+			g[i] = r.Pick(oddStrings)
+		}
+		return &question{endpoint: endpoint, email: oddOr(r, "a@x.io", 0.7), groups: g}
+	}
+	if r.Chance(0.12) { // pairs whose keys collided before the keys were quoted (C16-K2, fixed)
 		p := [][2]interface{}{
 			{"a", []string{"b:c"}}, {"a:b", []string{"c"}},
 			{"a", []string{"b,c"}}, {"a", []string{"c", "b"}},
